@@ -632,10 +632,13 @@ impl Cursor<'_> {
                 self.fake_ident_or_unknown_prefix()
             }
             _ => {
-                if !self.eat_decimal_digits() {
-                    Dollar
-                } else {
+                // Only digits (and digit separators after the first digit) belong to a
+                // hardware qubit identifier. A `$` that is not followed by a digit is a
+                // token of its own; in particular it must not swallow underscores.
+                if self.first().is_ascii_digit() && self.eat_decimal_digits() {
                     HardwareIdent
+                } else {
+                    Dollar
                 }
             }
         }
